@@ -241,10 +241,10 @@ def getHkl (ub : UBIn α) (p : Pos α) (wl : α) : V3 α :=
   let r := p.rad
   Gen.get_hkl ub.UB r.mu r.delta r.nu r.eta r.chi r.phi wl
 
-/-- the guard `__verify_pos_map_to_hkl` -/
+/-- the guard `__verify_pos_map_to_hkl`: every comparison has to succeed (a NaN fails it — repair 8d9ab1e) -/
 def hklMatches (got want : V3 α) : Bool :=
   let e : α := ofSci 1 true 3
-  !(lt e (abs (got.x - want.x)) || lt e (abs (got.y - want.y)) || lt e (abs (got.z - want.z)))
+  le (abs (got.x - want.x)) e && le (abs (got.y - want.y)) e && le (abs (got.z - want.z)) e
 
 /-- `__calc_hkl_to_position` -/
 def hklToPosition (ub : UBIn α) (mode : Mode α) (hkl : V3 α) (wl : α) : Py (List (Pos α × VAngles α)) := do
